@@ -490,6 +490,11 @@ def run(ck, facts):
     c08.run(C.SubCheck(ck, "R5", "", ["R8"], key_re=r"[Oo]ption"), facts)
     # an Option<primitive> is never classified as its payload (C08.R9): a one-field struct holding one keeps its {payload, is_ok} record and its receive buffer
     c08.run(C.SubCheck(ck, "R5", "", ["R9"], key_re=r"classifies|classification"), facts)
+    # the JS size / alignment formula of an option record (payload then flag, C08.R2)
+    c08.run(C.SubCheck(ck, "R5", "", ["R2"], key_re=r"DiplomatOption"), facts)
+    # C++: every fallible / nullable return shape tests the flag before it builds the value (C02.R4)
+    import c02
+    c02.run(C.SubCheck(ck, "R5", "", ["R4"], key_re=r"tests-flag|flag"), facts)
 
 
 def _walk_val(v):
